@@ -1,0 +1,27 @@
+//go:build verif
+
+// Package verifhook provides scheduler gates for the verification harness in /verif.
+// It is only compiled with build tag "verif".
+package verifhook
+
+import (
+	"os"
+	"strings"
+	"time"
+)
+
+// Gate blocks at the named point if environment variable VERIF_GATE is "name:path":
+// it creates path.reached and waits until path.release exists.
+func Gate(name string) {
+	n, p, ok := strings.Cut(os.Getenv("VERIF_GATE"), ":")
+	if !ok || n != name {
+		return
+	}
+	os.WriteFile(p+".reached", []byte(name), 0644)
+	for {
+		if _, err := os.Stat(p + ".release"); err == nil {
+			return
+		}
+		time.Sleep(2 * time.Millisecond)
+	}
+}
